@@ -5,7 +5,7 @@
    message). pdu_unpack fuel bs returns the decoded PDU and the number of loop iterations (ticks). *)
 From V Require Import Prelude.Base Prelude.PyInt Prelude.PySlice Prelude.PyStr gen.K_rpc gen.C_rpc.
 From V Require Import Model.Pdu Model.Request Model.RpcLoop Model.Bind Model.RpcDispatch Model.Epm.
-From V Require Import Proofs.RpcKernels Proofs.RpcPdu Proofs.RpcBind Proofs.RpcRoundtrip Proofs.RpcEpm.
+From V Require Import Proofs.RpcKernels Proofs.RpcPdu Proofs.RpcBind Proofs.RpcRoundtrip Proofs.RpcEpm Proofs.RpcExamples.
 
 (* ---- padding kernels (regenerated from _bind.py / _epm.py) ---- *)
 Theorem C12_pad_bindack : forall n, k_bindack_pack_pad n = k_bindack_unpack_pad n /\
